@@ -6,7 +6,7 @@ import warnings
 from .common import Oracle, Suite, errname, merge
 from . import C04
 
-GEN_UNITS = ["Ctx", "Handlers", "PyUnicode"]
+GEN_UNITS = ["Ctx", "Handlers", "PyUnicode", "ContextConfig"]
 LEAN_TARGETS = ["PasslibVerif.Props.C10"]
 ASSUMPTIONS = [
     "configparser (INI reading/writing, '%' interpolation) is external; INI round trips are compared on the real code",
